@@ -762,6 +762,20 @@ pub fn gen_c13(rng: &mut Rng, thorough: bool) -> Vec<Tagged> {
         let tag = format!("early-lr{}-T{}-E{}{}", lr, th, epochs, if with_val { "" } else { "-noval" });
         out.push((tag, Case::Net(spec, NetCmd::Learn { data, val: if with_val { Some((val, th)) } else { None }, batch: 1, epochs })));
     }
+    // extreme tolerances: i32::MAX ("never stop"), its neighbours, zero and negative windows, against rising
+    // and falling validation losses
+    for (k, &th) in [i32::MAX, i32::MAX - 1, 1 << 30, 65536, 0, -1, i32::MIN, i32::MIN + 1].iter().enumerate() {
+        for &lr in &[-0.05f32, 0.1] {
+            let mut spec = NetSpec::new(Sh::Flat(1).to_shape());
+            spec.layers.push(LayerSpec::One(Simple::Dense { out: 1, act: Act::Linear, bias: false, dropout: None }));
+            spec.weights = Some(vec![LW::One(W::Dense(t2(1, 1, &[0.5]), None))]);
+            spec.opt = Opt::SGD { lr, decay: None };
+            spec.obj = Obj::MSE;
+            let data = vec![(t1(vec![1.0]), t1(vec![1.0]))];
+            let val = vec![(t1(vec![1.0]), t1(vec![1.0]))];
+            out.push((format!("early-extreme-tolerance-{}", k), Case::Net(spec, NetCmd::Learn { data, val: Some((val, th)), batch: 1, epochs: 1 + (k as i32 % 3) * 2 })));
+        }
+    }
     // long epoch budgets and long windows (beyond 2^6 and 2^8 epochs): slowly rising, slowly falling and
     // zig-zag validation losses
     for (k, &(epochs, th, lr)) in [(300i32, 65i32, -1e-3f32), (300, 65, 1e-3), (130, 64, -1e-3), (260, 3, 1e-30), (300, 129, -1e-4), (70, 66, 1.0001), (300, 2, 1.9999)].iter().enumerate() {
